@@ -198,9 +198,9 @@ Proof.
   - split; [|exact F3]. eapply GWF_to_WF; [| | |exact G3]; [intros x [[[]|Hx] Hx2]; contradiction | intros x [] | intros x []].
 Qed.
 
-Lemma WF_mkdir s p perm : WF s -> wf_op s (Mkdir p perm) = true -> WF (fst (m_mkdir s p perm)).
+Lemma WF_mkdir s p perm : WF s -> wf_op_ord s (Mkdir p perm) = true -> WF (fst (m_mkdir s p perm)).
 Proof.
-  intros W Hwf. cbn [wf_op] in Hwf. apply andb_true_iff in Hwf as [Hn Hwf].
+  intros W Hwf. cbn [wf_op_ord] in Hwf. apply andb_true_iff in Hwf as [Hn Hwf].
   destruct (lookup s (normalize_path p)) as [f|] eqn:Hl.
   - unfold m_mkdir. rewrite Hl. exact W.
   - assert (Hc0 : canon (normalize_path p)) by now apply canon_normalize.
@@ -216,9 +216,9 @@ Proof.
   destruct (errk_eqb (ek e) KExist); reflexivity.
 Qed.
 
-Lemma WF_mkdirall s p perm : WF s -> wf_op s (MkdirAll p perm) = true -> WF (fst (m_mkdirall s p perm)).
+Lemma WF_mkdirall s p perm : WF s -> wf_op_ord s (MkdirAll p perm) = true -> WF (fst (m_mkdirall s p perm)).
 Proof.
-  intros W Hwf. rewrite m_mkdirall_fst. cbn [wf_op] in Hwf. apply andb_true_iff in Hwf as [Hn Hwf].
+  intros W Hwf. rewrite m_mkdirall_fst. cbn [wf_op_ord] in Hwf. apply andb_true_iff in Hwf as [Hn Hwf].
   destruct (lookup s (normalize_path p)) as [f|] eqn:Hl.
   - unfold m_mkdir. rewrite Hl. exact W.
   - assert (Hc0 : canon (normalize_path p)) by now apply canon_normalize.
@@ -236,9 +236,9 @@ Proof.
   destruct (reg_new_present s k (new_file k (mclock s)) 0 W Hc Hl) as (q & Hq & -> & W'); auto.
 Qed.
 
-Lemma WF_create s p : WF s -> wf_op s (Create p) = true -> WF (fst (m_create s p)).
+Lemma WF_create s p : WF s -> wf_op_ord s (Create p) = true -> WF (fst (m_create s p)).
 Proof.
-  intros W Hwf. cbn [wf_op] in Hwf. apply andb_true_iff in Hwf as [Hn Hwf].
+  intros W Hwf. cbn [wf_op_ord] in Hwf. apply andb_true_iff in Hwf as [Hn Hwf].
   set (k := normalize_path p) in *. assert (Hc : canon k) by now apply canon_normalize.
   unfold m_create. fold k.
   destruct (kind_at s k) as [[|]|] eqn:Hk; [discriminate| |].
@@ -253,9 +253,9 @@ Qed.
 Lemma WF_open s p : WF s -> WF (fst (m_open s p)).
 Proof. intros W. unfold m_open. destruct (lookup s (normalize_path p)); [|exact W]. unfold alloc_handle. cbn [fst]. wf_view. exact W. Qed.
 
-Lemma WF_openfile s p flag perm : WF s -> wf_op s (OpenFile p flag perm) = true -> WF (fst (m_openfile s p flag perm)).
+Lemma WF_openfile s p flag perm : WF s -> wf_op_ord s (OpenFile p flag perm) = true -> WF (fst (m_openfile s p flag perm)).
 Proof.
-  intros W Hwf. cbn [wf_op] in Hwf. apply andb_true_iff in Hwf as [Hn Hwf]. apply andb_true_iff in Hn as [Hn _].
+  intros W Hwf. cbn [wf_op_ord] in Hwf. apply andb_true_iff in Hwf as [Hn Hwf]. apply andb_true_iff in Hn as [Hn _].
   set (k := normalize_path p) in *. assert (Hc : canon k) by now apply canon_normalize.
   unfold m_openfile. fold k.
   assert (Tail : forall (s1 : mst) (f : nat) (created : bool), WF s1 ->
@@ -290,9 +290,9 @@ Qed.
 Lemma existsb_lookup (f : str * nat -> bool) s k r : lookup s k = Some r -> f (k, r) = true -> existsb f (mdata s) = true.
 Proof. intros Hl Hf. apply existsb_exists. exists (k, r). split; [now apply aget_in | exact Hf]. Qed.
 
-Lemma WF_remove s p : WF s -> wf_op s (Remove p) = true -> WF (fst (m_remove s p)).
+Lemma WF_remove s p : WF s -> wf_op_ord s (Remove p) = true -> WF (fst (m_remove s p)).
 Proof.
-  intros W Hwf. cbn [wf_op] in Hwf. apply andb_true_iff in Hwf as [Hn Hwf]. apply andb_true_iff in Hn as [Hn Hroot].
+  intros W Hwf. cbn [wf_op_ord] in Hwf. apply andb_true_iff in Hwf as [Hn Hwf]. apply andb_true_iff in Hn as [Hn Hroot].
   set (k := normalize_path p) in *. assert (Hc : canon k) by now apply canon_normalize.
   apply negb_true_iff, beqb_neq in Hroot.
   unfold m_remove. fold k. destruct (lookup s k) as [f|] eqn:Hl; [|exact W].
@@ -376,9 +376,9 @@ Proof.
     split; [rewrite <- Edp; rewrite L; auto|]. right. repeat split; auto; try (now intros []). now rewrite L.
 Qed.
 
-Lemma WF_removeall s p : WF s -> wf_op s (RemoveAll p) = true -> WF (fst (m_removeall s p)).
+Lemma WF_removeall s p : WF s -> wf_op_ord s (RemoveAll p) = true -> WF (fst (m_removeall s p)).
 Proof.
-  intros W Hwf. cbn [wf_op] in Hwf. apply andb_true_iff in Hwf as [Hn Hwf]. apply andb_true_iff in Hn as [Hn Hroot].
+  intros W Hwf. cbn [wf_op_ord] in Hwf. apply andb_true_iff in Hwf as [Hn Hwf]. apply andb_true_iff in Hn as [Hn Hroot].
   set (k := normalize_path p) in *. assert (Hc : canon k) by now apply canon_normalize.
   apply negb_true_iff, beqb_neq in Hroot.
   unfold m_removeall. fold k. destruct (lookup s k) as [f|] eqn:Hl.
